@@ -199,3 +199,44 @@ Definition refs_typed (sp : space) : Prop :=
   forall k n r, get_node sp k = Some n -> In r (n_refs n) -> r_type r <> None.
 Definition refs_typedb (sp : space) : bool :=
   forallb (fun kn => forallb (fun r => match r_type r with Some _ => true | None => false end) (n_refs (snd kn))) (sp_nodes sp).
+
+(* ---------------- MapNamespace.Browse (server/namespace_map.go) ----------------
+   A map namespace has no stored nodes: the references of its Root (i=84) and Objects (i=85) nodes are made up on the fly
+   - Root Organizes Objects; Objects HasComponent one Variable per key of the map - and then filtered by suitableRef like
+   the references of a node namespace (since the fix; before, the browse description was ignored). Every other node id
+   answers Good without references. `node_int` = NodeID.IntID() of the browsed node, `objects` = key of ns;i=85. *)
+Definition Organizes := 35.
+Definition HasComponent := 47.
+Definition RootFolderInt := 84.
+Definition ObjectsFolderInt := 85.
+
+Definition map_refs (ns : N) (objects : key) (keys : list key) (node_int : N) : list ref :=
+  if node_int =? RootFolderInt then [Ref (Some Organizes) Organizes true (Some (ns, objects)) 1 true]
+  else if node_int =? ObjectsFolderInt then map (fun k => Ref (Some HasComponent) HasComponent true (Some (ns, k)) 2 true) keys
+  else [].
+
+Fixpoint map_loop (fuel : nat) (sp : space) (bd : bdesc) (rs : list ref) : res (list ref) :=
+  match rs with
+  | [] => Ok []
+  | r :: t => match suitable_ref fuel sp bd r with
+              | None => OutOfFuel
+              | Some b => match map_loop fuel sp bd t with
+                          | Ok l => Ok (if b then r :: l else l)
+                          | Panic w => Panic w
+                          | OutOfFuel => OutOfFuel
+                          end
+              end
+  end.
+
+(* the type definition reported is the target itself *)
+Definition map_rdesc (r : ref) : rdesc :=
+  let tg := match r_target r with Some t => snd t | None => 0 end in
+  RD (match r_type r with Some k => k | None => 0 end) (r_fwd r) tg (r_class r) (Some tg).
+
+Definition map_browse (fuel : nat) (sp : space) (ns : N) (objects : key) (keys : list key) (node_int : N) (bd : bdesc)
+  : res (N * list rdesc) :=
+  match map_loop fuel sp bd (map_refs ns objects keys node_int) with
+  | Ok l => Ok (StGood, map map_rdesc l)
+  | Panic w => Panic w
+  | OutOfFuel => OutOfFuel
+  end.
